@@ -17,6 +17,7 @@ pub fn dispatch(v: &Value) -> Value {
         "mirror" => mirror_cmd(v),
         "mirror_bounded" => mirror_bounded(v),
         "ng" => ng_cmd(v),
+        "completion_search" => completion_search(v),
         "bdd_query" => bdd_query(v),
         "counts_kernel" => {
             let mc: ModelCounts = (us(&v["cmodels"]), us(&v["models"])).into();
@@ -756,4 +757,74 @@ pub fn parse_cmd(v: &Value) -> Value {
     }
     let lookup_ok = names.iter().enumerate().all(|(i, n)| parser.dict_value(n) == Some(i));
     json!({"ok": true, "names": names, "formulas": forms, "lookup_ok": lookup_ok})
+}
+
+
+/// From a unit-level counterexample to a failing input of the public API: statement `pos` has the acceptance condition `tab`;
+/// the other statements range over all tables (n <= 3) or over `limit` pseudo-random ones.  Returns the first ADFs on which one of
+/// `procs` does not return the same multiset as `reference` (both real procedures of the library; the caller judges each
+/// candidate against the definition afterwards).
+pub fn completion_search(v: &Value) -> Value {
+    let n = us(&v["n"]);
+    let pos = us(&v["pos"]);
+    let tab: Vec<u8> = v["tab"].as_array().unwrap().iter().map(|b| b.as_u64().unwrap() as u8).collect();
+    let procs: Vec<String> = v["procs"].as_array().unwrap().iter().map(|p| p.as_str().unwrap().to_string()).collect();
+    let reference = v["reference"].as_str().unwrap_or("stable").to_string();
+    let limit = v["limit"].as_u64().unwrap_or(70000);
+    let want = v["want"].as_u64().unwrap_or(3) as usize;
+    let rows = 1usize << n;
+    let free_bits = (n - 1) * rows;
+    let exhaustive = free_bits <= 16 && (1u64 << free_bits) <= limit;
+    let total = if exhaustive { 1u64 << free_bits } else { limit };
+    let mut state: u64 = 0x9E37_79B9_7F4A_7C15 ^ v["seed"].as_u64().unwrap_or(1);
+    let mut next = || {
+        state ^= state << 13;
+        state ^= state >> 7;
+        state ^= state << 17;
+        state
+    };
+    let empty = json!({});
+    let mut found = Vec::new();
+    let mut tried = 0u64;
+    for k in 0..total {
+        let mut tabs: Vec<Vec<u8>> = Vec::new();
+        let mut bitpos = 0;
+        for s_ in 0..n {
+            if s_ == pos {
+                tabs.push(tab.clone());
+            } else if exhaustive {
+                tabs.push((0..rows).map(|r| ((k >> (bitpos + r)) & 1) as u8).collect());
+                bitpos += rows;
+            } else {
+                let w = next();
+                tabs.push((0..rows).map(|r| ((w >> (r % 64)) & 1) as u8).collect());
+            }
+        }
+        tried += 1;
+        let run = |p: &str| -> Option<Vec<String>> {
+            let tabs2 = tabs.clone();
+            let p2 = p.to_string();
+            let e2 = empty.clone();
+            std::panic::catch_unwind(move || {
+                let mut adf = adf_from_tabs(n, &tabs2);
+                let (res, _) = run_proc(&mut adf, &p2, &e2);
+                let mut cls: Vec<String> = res.iter().map(|r| classes(r)).collect();
+                cls.sort();
+                cls
+            })
+            .ok()
+        };
+        let base = run(&reference);
+        for p in &procs {
+            let got = run(p);
+            if got.is_none() || got != base {
+                found.push(json!({"tabs": tabs, "proc": p}));
+                break;
+            }
+        }
+        if found.len() >= want {
+            break;
+        }
+    }
+    json!({"candidates": found, "tried": tried, "exhaustive": exhaustive})
 }
